@@ -29,12 +29,12 @@ func TestMain(m *testing.M) {
 	gen.Quiet()
 	ev.MustHit("restart-in-history", "pruning-config", "block-with-uncle", "failing-tx-in-block", "fork-crossing-block", "reorg-during-history", "batch>1",
 		"corrupt:root", "corrupt:receipthash", "corrupt:bloom", "corrupt:gasused", "corrupt:txhash", "corrupt:unclehash", "corrupt:body-drop-tx", "corrupt:body-dup-tx",
-		"corrupt:body-swap-tx", "corrupt:body-add-uncle", "corrupt:body-drop-uncle", "corrupt:txhash-recomputed-root-stale", "commitments-recomputed", "contract-executing-tx")
+		"corrupt:body-swap-tx", "corrupt:body-add-uncle", "corrupt:body-drop-uncle", "corrupt:txhash-recomputed-root-stale", "commitments-recomputed", "contract-executing-tx", "corrupt-overtaking", "overtaking-branch-was-unexecuted")
 	ev.Main(m, ev.Config{
 		Property: "C01",
 		Level:    "exploration",
 		Rule: "rapid-generated block trees on six fork configurations (every fork crossed) with transactions from the whole contract zoo, uncles and empty blocks, built by the harness builder; each tree is imported by a reference node (archive, one block per call) and by a node under a generated history (linked batches, fork interleavings, restarts, archive/pruning/eager-pruning caches); " +
-			"receipts, gas, logs, blooms and the full state at every block both nodes hold are compared with each other, with the builder's record and with commitments recomputed by independent reference code; then one accepted block is corrupted in one commitment or in its body and offered again. " +
+			"receipts, gas, logs, blooms and the full state at every block both nodes hold are compared with each other, with the builder's record and with commitments recomputed by independent reference code; then one accepted block is corrupted in one commitment or in its body and offered again - on the ordinary import path and as the block with which an unexecuted side branch overtakes on a restarted pruning node. " +
 			"non-trivial = a tree with >= 2 branches and >= 1 contract-executing transaction whose history differs from block-by-block delivery; distinct by hash of tree+history",
 		Assumptions: []string{
 			"fake-PoW engine (all header rules enforced, seal skipped)",
